@@ -15,6 +15,7 @@ package main
 // reported by whichever rule cannot see through it - never silently accepted).
 
 import (
+	"go/types"
 	"encoding/json"
 	"fmt"
 	"go/ast"
@@ -195,6 +196,23 @@ func (c *Ctx) normalize(overlay map[string][]byte) (map[string][]byte, []string)
 			}
 			caller := &inline.Caller{Fset: c.Fset, Types: s.p.Types, Info: s.p.TypesInfo, File: s.file, Call: s.call}
 			res, err := inline.Inline(caller, callee, &inline.Options{Recover: true})
+			if err != nil && strings.Contains(err.Error(), "type parameter inference") {
+				// the inliner wants the instantiation spelled out: write the inferred type
+				// arguments at the call site and let the next round inline it
+				if txt := explicitTypeArgs(s.p, s.call); txt != "" {
+					content := cur[fname]
+					if content == nil {
+						content, _ = os.ReadFile(fname)
+					}
+					off := c.Fset.Position(s.call.Fun.End()).Offset
+					if off > 0 && off <= len(content) {
+						cur[fname] = append(append(append([]byte{}, content[:off]...), []byte(txt)...), content[off:]...)
+						progressed, changed = true, true
+						log = append(log, fmt.Sprintf("instantiated %s%s at %s", s.key, txt, c.pos(s.call.Pos())))
+						continue
+					}
+				}
+			}
 			if err != nil {
 				log = append(log, fmt.Sprintf("%s at %s: inliner refused (%v)", s.key, c.pos(s.call.Pos()), err))
 				base[s.key] = true
@@ -270,3 +288,42 @@ func toEdits(fset *token.FileSet, edits []refactor.Edit) []refactorEdit {
 }
 
 type packagesPkg = packages.Package
+
+// explicitTypeArgs renders the type arguments the type checker inferred for a call of a
+// generic function as "[T1, T2]" in the caller's package, or "" when they cannot be written
+// there (a type of a package the file may not import).
+func explicitTypeArgs(p *packagesPkg, call *ast.CallExpr) string {
+	var id *ast.Ident
+	switch f := ast.Unparen(call.Fun).(type) {
+	case *ast.Ident:
+		id = f
+	case *ast.SelectorExpr:
+		id = f.Sel
+	default:
+		return ""
+	}
+	inst, ok := p.TypesInfo.Instances[id]
+	if !ok || inst.TypeArgs == nil || inst.TypeArgs.Len() == 0 {
+		return ""
+	}
+	bad := false
+	var parts []string
+	for i := 0; i < inst.TypeArgs.Len(); i++ {
+		parts = append(parts, types.TypeString(inst.TypeArgs.At(i), func(q *types.Package) string {
+			if q == p.Types {
+				return ""
+			}
+			for _, imp := range p.Types.Imports() {
+				if imp == q {
+					return q.Name()
+				}
+			}
+			bad = true
+			return q.Name()
+		}))
+	}
+	if bad {
+		return ""
+	}
+	return "[" + strings.Join(parts, ", ") + "]"
+}
